@@ -370,6 +370,7 @@ fn scope_job(ctx: &mut Ctx, res: &mut ShardResult, max_present: usize) {
         let placement = match case["id"]["placement"].as_u64().unwrap_or(0) {
             0 => Placement::Main,
             1 => Placement::Included,
+            3 => Placement::IncludedTwice,
             _ => Placement::Subninja,
         };
         let set = c11_manifest(&assign, placement);
@@ -391,7 +392,7 @@ fn scope_job(ctx: &mut Ctx, res: &mut ShardResult, max_present: usize) {
                 return;
             }
         }
-        for placement in [Placement::Main, Placement::Included, Placement::Subninja] {
+        for placement in [Placement::Main, Placement::Included, Placement::Subninja, Placement::IncludedTwice] {
             let set = c11_manifest(assign, placement);
             let s = spell_set(&set);
             let choice = vec![0; s.radices.len()];
